@@ -165,7 +165,7 @@ def payload_st(tier):
 
 
 FALLBACKS = ['raw-named', 'raw-unknown', 'no-module', 'plugins-off', 'raises', 'returns-none',
-             'builtin-other-subtype', 'plugins-off-with-module']
+             'builtin-other-subtype', 'plugins-off-with-module', 'builtin-not-utf8']
 
 
 @st.composite
@@ -188,6 +188,17 @@ def fallback_case(draw, tier):
         c['id'] = draw(S.unknown_id)
     elif fb == 'builtin-other-subtype':
         c['sub'] = draw(st.one_of(st.sampled_from([2, 4, 0, 5, 255]), st.integers(4, 255)))
+    elif fb == 'builtin-not-utf8':
+        # built-in JSON / text format whose payload is not valid UTF-8: neither JSON nor text
+        c['sub'] = draw(st.sampled_from([1, 3]))
+        bad = draw(st.sampled_from([b'\x80', b'\xff', b'\xc0\x20', b'\xed\xa0\x80', b'\xf8']))
+        pre = draw(st.binary(max_size=12))
+        c['payload'] = pre + bad + draw(st.binary(max_size=12))
+        try:
+            c['payload'].decode('utf-8')
+            c['payload'] = b'\xff' + c['payload']
+        except UnicodeDecodeError:
+            pass
     return c
 
 
@@ -204,7 +215,7 @@ def fallbacks(case, note):
     if fb in ('raw-named', 'raw-unknown'):
         sec, phc = {'k': 'RAW', 'id': case['id'], 'ver': case['ver'], 'sub': case['sub'], 'comp': comp,
                     'data': payload}, creator
-    elif fb == 'builtin-other-subtype':
+    elif fb in ('builtin-other-subtype', 'builtin-not-utf8'):
         sec, phc = mk_section(case['kind'], case['ver'], case['sub'], 0x2000, payload, BMC)
     else:
         sec, phc = mk_section(case['kind'], case['ver'], case['sub'], comp, payload, creator)
